@@ -199,7 +199,8 @@ impl Driver {
     pub fn adopt(world: World, model: Model, probe_seed: u64) -> Driver {
         let names = world.names.clone();
         let image = world.image();
-        let foreign: Image = image.iter().filter(|(n, _)| !is_wal_name(n)).map(|(n, v)| (n.clone(), v.clone())).collect();
+        // everything that is not a regular file with a WAL name is foreign
+        let foreign: Image = image.iter().filter(|(n, v)| !(is_wal_name(n) && matches!(v, crate::simfs::Node::File(_)))).map(|(n, v)| (n.clone(), v.clone())).collect();
         let cursor = world.fs.borrow().last_cursor.clone().and_then(|(name, pos)| wal_number(&name).map(|n| (n, pos as usize)));
         let wal_mark = world.trace_len();
         Driver {
